@@ -304,12 +304,16 @@ func (s *Syncer) walkFetch(ctx context.Context, rootCid cid.Cid, sel selector.Se
 }
 
 func (s *Syncer) fetch(ctx context.Context, rsrc string, cb func(io.Reader) error) error {
+	// legacyFrom is the root URL before this request fell back to the
+	// legacy no-path form. The fallback is kept only if it gets a response.
+	var legacyFrom *url.URL
 nextURL:
 	fetchURL := s.rootURL.JoinPath(rsrc)
 	var doneRetry bool
 retry:
 	req, err := http.NewRequestWithContext(ctx, "GET", fetchURL.String(), nil)
 	if err != nil {
+		s.undoLegacyFallback(legacyFrom)
 		return err
 	}
 
@@ -336,6 +340,7 @@ retry:
 			doneRetry = true
 			goto retry
 		}
+		s.undoLegacyFallback(legacyFrom)
 		return fmt.Errorf("fetch request failed: %w", err)
 	}
 	defer resp.Body.Close()
@@ -348,10 +353,12 @@ retry:
 		if s.plainHTTP && !s.noPath {
 			// Try again with no path for legacy http.
 			log.Warnw("Plain HTTP got not found response, retrying without IPNI path for legacy HTTP")
+			legacyFrom = s.legacyFallbackFrom()
 			s.rootURL.Path = strings.TrimSuffix(s.rootURL.Path, strings.Trim(IPNIPath, "/"))
 			s.noPath = true
 			goto nextURL
 		}
+		s.undoLegacyFallback(legacyFrom)
 		log.Errorw("Block not found from HTTP publisher", "resource", rsrc)
 		// Include the string "content not found" so that indexers that have not
 		// upgraded gracefully handle the error case. Because, this string is
@@ -362,6 +369,7 @@ retry:
 		if s.plainHTTP && !s.noPath {
 			// Try again with no path for legacy http.
 			log.Warnw("Plain HTTP got forbidden response, retrying without IPNI path for legacy HTTP")
+			legacyFrom = s.legacyFallbackFrom()
 			s.rootURL.Path = strings.TrimSuffix(s.rootURL.Path, strings.Trim(IPNIPath, "/"))
 			s.noPath = true
 			goto nextURL
@@ -369,7 +377,25 @@ retry:
 		fallthrough
 	default:
 		_, _ = io.Copy(io.Discard, resp.Body)
+		s.undoLegacyFallback(legacyFrom)
 		return fmt.Errorf("non success http fetch response at %s: %d", fetchURL.String(), resp.StatusCode)
+	}
+}
+
+// legacyFallbackFrom returns a copy of the root URL to go back to if the
+// legacy no-path retry of the current request does not succeed.
+func (s *Syncer) legacyFallbackFrom() *url.URL {
+	u := s.rootURL
+	return &u
+}
+
+// undoLegacyFallback restores the IPNI path form after a request that fell
+// back to the legacy no-path form failed anyway, so that the failure of one
+// request does not leave the client on the wrong path for all later ones.
+func (s *Syncer) undoLegacyFallback(from *url.URL) {
+	if from != nil {
+		s.rootURL = *from
+		s.noPath = false
 	}
 }
 
